@@ -10,7 +10,7 @@ import tempfile
 from hypothesis import strategies as st
 
 from pbt import common, gens, libside, refsem
-from pbt.drive import Err, HypStage, Violation, lib
+from pbt.drive import EnumStage, Err, HypStage, Violation, lib
 from pbt.faultio import MinimalStream
 
 ID = "C09"
@@ -431,7 +431,79 @@ def _run_dynunion(case, ctx):
 _run_case_static = run_case
 
 
+# counts a parse computes from the data, including the values a reader might use as internal markers (to-end-of-stream,
+# null-terminated): whatever the count, the record ends where its elements end
+SPECIAL_COUNTS = [-0xE0F, -0xE0F + 1, -0xE0F - 1, -1, -2, -256, 0, 1, 3]
+COUNT_ELEMS = {"uint8": 1, "uint16": 2, "char": 1, "wchar": 2, "int24": 3, "S": 3}
+COUNT_FORMS = {"n": 0, "n - 3600": -3600, "n + 1": 1}
+
+
+def count_cases():
+    for n in SPECIAL_COUNTS:
+        for et in COUNT_ELEMS:
+            for form in COUNT_FORMS:
+                for compiled in (False, True):
+                    yield {"counts": True, "count": n, "elem": et, "form": form, "compiled": compiled, "endian": "<" if (n + len(et)) % 2 else ">"}
+
+
+def _run_counts(case, ctx):
+    """struct Root { int16 n; T data[<form of n>]; uint16 tail; } somewhere inside a stream, with other bytes in front and
+    behind: every input kind / call form gives the value of the record parsed on its own, leaves the stream behind the
+    record and does not look at what follows."""
+    from pbt.drive import import_repo
+
+    m = import_repo()
+    et, form, want = case["elem"], case["form"], max(0, case["count"])
+    n = case["count"] - COUNT_FORMS[form]
+    cs = m.cstruct(endian=case["endian"])
+    text = "struct S { uint8 a; uint16 b; };\n" + f"struct Root {{ int16 n; {et} data[{form}]; uint16 tail; }};\n"
+    r = lib(cs.load, text, compiled=case["compiled"])
+    if isinstance(r, Err):
+        raise Violation("definition-rejected", f"{text}: {r}", r.where)
+    T = cs.Root
+    order = "little" if case["endian"] == "<" else "big"
+    body = b"".join((0x41 + i).to_bytes(2, order) if et == "wchar" else bytes([0x41 + i] * COUNT_ELEMS[et]) for i in range(want))
+    rec = n.to_bytes(2, order, signed=True) + body + b"\xEE\xEE"
+    what0 = {"definition": f"int16 n; {et} data[{form}]; uint16 tail;", "n": n, "count": case["count"], "record": rec.hex(), "compiled": case["compiled"], "endian": case["endian"]}
+    base = lib(T, rec)
+    if isinstance(base, Err):
+        raise Violation("accepted-input-rejected", f"{what0} -> {base}", base.where)
+    bval = libside.cplain(base)
+    if len(base.data) != want or base.tail != 0xEEEE:
+        raise Violation("value-differs", f"{what0}: the record on its own parses to {bval!r}; it holds {want} elements and tail 0xEEEE")
+    runs = 0
+    for prefix, suffix in ((b"", b"\x01\x00\x00\x01" * 3), (b"\x7f" * 5, b"A\x00" * 6), (b"\x00", b"")):
+        data = prefix + rec + suffix
+        p = len(prefix)
+        for kind in ("BytesIO", "minimal"):
+            for form_, call in (("T(x)", lambda x: T(x)), ("T.read(x)", lambda x: T.read(x)), ("cs.read", lambda x: cs.read("Root", x))):
+                s_ = io.BytesIO(data) if kind == "BytesIO" else MinimalStream(data)
+                s_.seek(p)
+                got = lib(call, s_)
+                runs += 1
+                what = dict(what0, input_kind=kind, call=form_, p=p, suffix=suffix.hex())
+                if isinstance(got, Err):
+                    raise Violation("accepted-input-rejected", f"{what} -> {got}", got.where)
+                if libside.cplain(got) != bval:
+                    raise Violation("value-differs", f"{what}: {libside.cplain(got)!r} vs the record parsed on its own {bval!r}")
+                if s_.tell() != p + len(rec):
+                    raise Violation("position-differs", f"{what}: stream at {s_.tell()}, expected {p} + {len(rec)}")
+        if not prefix:
+            for form_, call in (("T(bytes)", lambda: T(data)), ("T.reads(bytes)", lambda: T.reads(data)), ("T(bytearray)", lambda: T(bytearray(data))), ("T(memoryview)", lambda: T(memoryview(data)))):
+                got = lib(call)
+                runs += 1
+                if isinstance(got, Err) or libside.cplain(got) != bval:
+                    raise Violation("value-differs", f"{dict(what0, call=form_, suffix=suffix.hex())}: {got if isinstance(got, Err) else libside.cplain(got)!r} vs the record parsed on its own {bval!r}")
+    ctx.evaluations += runs - 1
+    ctx.count("special-count:" + ("marker" if case["count"] == -0xE0F else "negative" if case["count"] < 0 else "non-negative"))
+    ctx.mark_nontrivial(case)
+    if case["count"] in (-0xE0F, 3) and et in ("char", "S"):
+        ctx.sample(dict(what0, parses=runs), "special-count")
+
+
 def run_case(case, ctx):  # noqa: F811 - dispatch on the case kind
+    if case.get("counts"):
+        return _run_counts(case, ctx)
     if case.get("dynunion"):
         return _run_dynunion(case, ctx)
     if case.get("leaf"):
@@ -445,4 +517,5 @@ def stages(tier):
         HypStage("streams", stream_case, examples=350 if q else 3000, shards=10 if q else 16),
         HypStage("dynamic-unions", dynunion_case, examples=400 if q else 4000, shards=2 if q else 4),
         HypStage("leaf-types", leaf_case, examples=500 if q else 4000, shards=2 if q else 4),
+        EnumStage("special-counts", count_cases, shards=2, scope="9 data-derived count values (the readers' internal markers and their neighbours, negative, zero, small) x 6 element types x 3 expression forms x both readers; record inside a stream with bytes in front and behind, 2 stream kinds x 3 call forms x 3 placements + 4 bytes-like forms"),
     ]
